@@ -8,6 +8,8 @@ import (
 
 	"cosmossdk.io/math"
 
+	authtypes "github.com/cosmos/cosmos-sdk/x/auth/types"
+
 	ophosttypes "github.com/initia-labs/OPinit/x/ophost/types"
 
 	"verifharness/mon"
@@ -158,6 +160,14 @@ func (d *c02DFS) explore(s *c02State, depth int) {
 				d.run.Evaluations++
 				n2.path = append(n2.path, fmt.Sprintf("finalize(leaf=%d out=%d, recipient re-spelled in upper case) -> %s", li, o.Index, r2.Class))
 				d.run.Check("C02.respelled_recipient_not_paid_again", r2.Class != sim.OK, "c02.double_payment_respelled", n2.path, "leaf %d paid a second time after re-spelling the recipient address", li)
+				// "by whom": the paid withdrawal re-submitted by every kind of privileged account
+				for who, addr := range privilegedSubmitters(n.env, 1, w.To) {
+					n3 := n.fork()
+					r3 := n3.env.L1.Deliver(o.Claim(pos, addr))
+					d.run.Evaluations++
+					n3.path = append(n3.path, fmt.Sprintf("finalize(leaf=%d out=%d by the %s) -> %s", li, o.Index, who, r3.Class))
+					d.run.Check("C02.resubmission_by_anyone_rejected", r3.Class != sim.OK, "c02.double_payment_by."+who, n3.path, "leaf %d paid a second time when re-submitted by the %s", li, who)
+				}
 				d.explore(n, depth-1)
 			} else {
 				if s.paid[li] > 0 {
@@ -167,6 +177,19 @@ func (d *c02DFS) explore(s *c02State, depth int) {
 				// a rejected message leaves the branch unchanged; still a state worth exploring from? no: identical to s.
 			}
 		}
+	}
+}
+
+// privilegedSubmitters: accounts whose signature might be given special treatment by a handler.
+func privilegedSubmitters(env *L1Env, bridge uint64, recipient string) map[string]string {
+	r := env.Bridges[bridge]
+	return map[string]string{
+		"governance module": env.L1.Gov,
+		"proposer":          r.Proposer.String(),
+		"challenger":        r.Challenger.String(),
+		"recipient":         recipient,
+		"bridge escrow":     ophosttypes.BridgeAddress(bridge).String(),
+		"ophost module":     authtypes.NewModuleAddress(ophosttypes.ModuleName).String(),
 	}
 }
 
@@ -181,7 +204,7 @@ func treeKey(o *ProposedOutput) string {
 func checkC02(run *mon.Run, rng *mon.Rand, thorough bool) {
 	run.Rule = "bounded-exhaustive DFS on copy-on-write branches (3 leaves, <=3 live outputs, 4 tree variants incl. a single-leaf tree and overlapping trees; alphabet propose/delete/advance/finalize; state-digest memoisation) + seeded random long histories with re-included leaves, deletions and re-proposals. Distinct non-trivial = re-submissions (leaf, output, tree variant / history position) of an already paid withdrawal that the chain rejected"
 	run.Assumptions = []string{"withdrawal identity = leaf hash (collision-free)", "DFS depth bound: quick 6, thorough 8"}
-	for _, c := range []string{"C02.paid_at_most_once", "C02.claimed_query_agrees", "C02.claimed_query_other_bridge", "C02.recipient_credited_once", "C02.resubmission_rejected", "C02.first_payment_accepted"} {
+	for _, c := range []string{"C02.paid_at_most_once", "C02.claimed_query_agrees", "C02.claimed_query_other_bridge", "C02.recipient_credited_once", "C02.resubmission_rejected", "C02.first_payment_accepted", "C02.resubmission_by_anyone_rejected", "C02.respelled_recipient_not_paid_again"} {
 		run.Declare(c, 10)
 	}
 	period := 10 * time.Second
